@@ -7,6 +7,7 @@ from .. import app, common, enum
 from ..par import pmap
 from ..worlds import ServerWorld
 from .c11 import graph_size
+from ..introspect import callbacks_of, server_partial_packets
 
 LEVEL = 'fault_enumeration'
 
@@ -235,8 +236,7 @@ def observe(w):
                               sorted(roles.get(r, r) for r in
                                      map(str, n(w.sio.rooms(sid, ns)))),
                               repr(n(sess)),
-                              sorted(k for k in m.callbacks.get(sid, {})
-                                     if k != 0))
+                              sorted(callbacks_of(m).get(sid, {})))
     obs['state'] = state
     return _rename(obs, roles)
 
@@ -270,7 +270,7 @@ def run_script(is_async, serializer, offender, pos):
             for f in offender:
                 # does the decoder itself reject it?
                 undecodable = False
-                owed = w.eio_sid(w.O) in w.sio._binary_packet
+                owed = w.eio_sid(w.O) in server_partial_packets(w.sio)
                 if not owed:
                     try:
                         w.sio.packet_class(encoded_packet=f)
